@@ -3,15 +3,26 @@
 Sub-properties (metamorphic relations on generated observables)
   fft       gamma_method(fft=True) == gamma_method(fft=False) in every e_* result
   relabel   configuration numbers i -> a*i+b per ensemble leave every result (and the lengths of e_rho) unchanged
-  rename    renaming replicas / ensembles and permuting constructor arguments leaves the results unchanged
+  rename    renaming replicas / ensembles and permuting constructor arguments leaves the results unchanged; the new
+            replica labels include labels with further '|' characters ('A|s1|c1': the ensemble is the text before
+            the FIRST '|', everything behind it is the free-form name of the replicum)
   affine    adding a constant leaves errors unchanged; multiplying by c scales errors by |c|, tau_int unchanged
             (all four also assert tau_int >= 1/2 and finite non-negative errors)
+  derive    "deriving new observables from an object gives the same result whether or not it has been analysed
+            before": every operator / function of a catalogue (obs+int, obs-float, number+obs, numpy scalars, unary
+            functions, obs∘obs, derived_observable) is applied to a never analysed copy and to a copy with a history of
+            gamma_method calls; the two results must agree bitwise in value / fluctuations / configuration lists AND
+            in the analysis state they carry (dvalue, ddvalue, presence and content of every e_* dictionary and of
+            S / tau_exp / N_sigma), and again after their own analysis; the parent's stored analysis is untouched.
 History (model-based, hypothesis RuleBasedStateMachine, traced)
   history   sequences of gamma_method calls with differing arguments, changes of the class-level dictionaries and
             global defaults, and arithmetic on analysed objects.  After every analysis: data untouched (bitwise),
             results equal the stateless reference analysis with the model's effective parameters
             (argument > dictionary > global), repeated call bit-identical; arithmetic on analysed objects is
-            bit-identical to arithmetic on never-analysed rebuilt copies.
+            bit-identical to arithmetic on never-analysed rebuilt copies - in the data and in the analysis state the
+            result carries (obs∘obs and obs∘number with int / float / numpy scalar operands on either side).
+            The model derives the ensembles from the names itself (text before the first '|'); base observables
+            carry replica labels with further '|' in about a third of the ensembles.
 """
 import copy
 import math
@@ -29,10 +40,15 @@ PROPERTY = 'C03'
 LEVEL = 'exploration'
 RULE = ('Metamorphic cases: Hypothesis-generated observables as in C02 plus a transformation (fft switch, affine relabelling '
         'i->a*i+b per ensemble, replica/ensemble renaming and argument permutation, shift and scale of the data). '
+        'Replica labels with further "|" characters (ensemble|stream|chain; label nested_names) are produced in about a '
+        'third of the ensembles of every sub-property and among the new names of the rename relation. '
+        'derive: an observable, a history of 1-3 gamma_method calls on one copy, a number c (int / float / numpy scalar) and a '
+        'second observable; the whole operator catalogue is applied to the analysed and to the never analysed copy. '
         'Histories: RuleBasedStateMachine over a pool of observables with rules analyse / set or delete dictionary entries / '
-        'set global defaults / arithmetic. Non-trivial: relabelling with a>1 of an irregular or multi-replica layout, a '
-        'renaming that changes the sort order of replicas, or a history with >= 2 analyses of one object under different '
-        'effective parameters or with a dictionary change in between. Window ties (|margin| < 1e-7) are skipped.')
+        'set global defaults / arithmetic between pool members / arithmetic with plain numbers. Non-trivial: relabelling with '
+        'a>1 of an irregular or multi-replica layout, a renaming that changes the sort order of replicas or introduces a '
+        'nested label, a derivation from a parent whose analysis succeeded, or a history with >= 2 analyses of one object '
+        'under different effective parameters or with a dictionary change in between. Window ties (|margin| < 1e-7) are skipped.')
 ASSUMPTIONS = ['near ties of the windowing criterion are recognised with ref_gamma margins and skipped',
                'shift constants are limited to 1e3 sigma so that rounding of (sample - mean) stays below the tolerance']
 
@@ -136,14 +152,41 @@ def layout_labels(spec_obs):
         reps.setdefault(c['name'].split('|')[0], []).append(c['name'])
     if any(len(v) > 1 for v in reps.values()):
         labs.add('multi_replica')
+    if any(c['name'].count('|') > 1 for c in spec_obs['chains']):
+        labs.add('nested_names')
+        if any(len(set(n.rsplit('|', 1)[0] for n in v)) > 1 for v in reps.values()):
+            labs.add('nested_names:several_prefixes')      # replicas of one ensemble differ before their LAST '|'
     return labs
+
+
+# Replica labels that contain further '|' characters.  A name is '<ensemble>|<replicum>': the constructor, e_content and
+# derived_observable all take the text before the FIRST '|' as the ensemble, the rest is the free-form name of the
+# replicum (stream|chain, run|segment|part ...; 'B|r1' = the name of another ensemble occurs inside the label).
+NESTED_SUFFIX = ['s1|c1', 's1|c2', 's2|c1', 'a|b|1', 'a|b|2', 'a|c|1', 'r1|x', 'B|r1', 'A|r2']
+
+
+@st.composite
+def obs_nested(draw, base, one_in=3):
+    """An observable spec of `base` in which the replicas of about every `one_in`-th ensemble carry nested labels."""
+    obs = copy.deepcopy(draw(base))
+    groups = {}
+    for c in obs['chains']:
+        groups.setdefault(c['name'].split('|')[0], []).append(c)
+    for e in sorted(groups):
+        if draw(st.integers(0, one_in - 1)) != 0:
+            continue
+        chs = groups[e]
+        suf = draw(st.lists(st.sampled_from(NESTED_SUFFIX), min_size=len(chs), max_size=len(chs), unique=True))
+        for c, s_ in zip(chs, suf):
+            c['name'] = e + '|' + s_
+    return obs
 
 
 # ------------------------------------------------------------------------------------------- fft
 @st.composite
 def fft_case(draw, tier):
     nmax = 40 if tier == 'quick' else 300
-    return {'obs': draw(gen.obs_spec(nmax=nmax, data_kinds=('white', 'ar1', 'alt', 'count', 'list'))), 'kw': draw(gm_kwargs())}
+    return {'obs': draw(obs_nested(gen.obs_spec(nmax=nmax, data_kinds=('white', 'ar1', 'alt', 'count', 'list')))), 'kw': draw(gm_kwargs())}
 
 
 def fft_oracle(spec):
@@ -160,7 +203,7 @@ def fft_oracle(spec):
 @st.composite
 def relabel_case(draw, tier):
     nmax = 40 if tier == 'quick' else 300
-    obs = draw(gen.obs_spec(nmax=nmax, data_kinds=('white', 'ar1', 'alt', 'count', 'list')))
+    obs = draw(obs_nested(gen.obs_spec(nmax=nmax, data_kinds=('white', 'ar1', 'alt', 'count', 'list'))))
     enss = sorted(set(c['name'].split('|')[0] for c in obs['chains']))
     tr = {e: [draw(st.integers(1, 7)), draw(st.one_of(st.integers(0, 50), st.integers(0, 100000)))] for e in enss}
     return {'obs': obs, 'tr': tr, 'kw': draw(gm_kwargs()), 'fft': draw(st.booleans())}
@@ -185,17 +228,23 @@ def relabel_oracle(spec):
 
 
 # ------------------------------------------------------------------------------------------- rename
+RENAME_PLAIN = ['r1', 'r2', 'r10', 'a', 'b', 'rep_3', '0', '00']
+
+
 @st.composite
 def rename_case(draw, tier):
     nmax = 40 if tier == 'quick' else 300
-    obs = draw(gen.obs_spec(nmax=nmax, data_kinds=('white', 'ar1', 'count', 'list'), allow_bare=False))
+    obs = draw(obs_nested(gen.obs_spec(nmax=nmax, data_kinds=('white', 'ar1', 'count', 'list'), allow_bare=False), one_in=4))
     enss = sorted(set(c['name'].split('|')[0] for c in obs['chains']))
     newens = draw(st.lists(st.sampled_from(['A', 'B', 'Q', 'ens3', 'x_y', 'AB', 'zz']), min_size=len(enss), max_size=len(enss), unique=True))
     emap = dict(zip(enss, newens))
     rmap = {}
     for e in enss:
         reps = [c['name'] for c in obs['chains'] if c['name'].split('|')[0] == e]
-        suf = draw(st.lists(st.sampled_from(['r1', 'r2', 'r10', 'a', 'b', 'rep_3', '0', '00']), min_size=len(reps), max_size=len(reps), unique=True))
+        # plain labels, or (every second ensemble) labels that may contain further '|' characters: all of them are replicas
+        # of the ensemble named before the FIRST '|'
+        pool = RENAME_PLAIN if draw(st.booleans()) else RENAME_PLAIN + NESTED_SUFFIX + NESTED_SUFFIX
+        suf = draw(st.lists(st.sampled_from(pool), min_size=len(reps), max_size=len(reps), unique=True))
         for r, s in zip(reps, suf):
             rmap[r] = emap[e] + '|' + s
     perm = draw(st.permutations(list(range(len(obs['chains'])))))
@@ -218,15 +267,18 @@ def rename_oracle(spec):
     old = sorted(spec['rmap'])
     new_order = sorted(old, key=lambda n: spec['rmap'][n])
     labs = layout_labels(spec['obs'])
-    return {'nt': old != new_order, 'cls': sorted(labs) + ['order_changed' if old != new_order else 'order_same']}
+    new_labs = layout_labels(sp2)
+    extra = ['order_changed' if old != new_order else 'order_same']
+    extra += ['to:' + x for x in sorted(new_labs) if x.startswith('nested_names')]
+    return {'nt': old != new_order or 'nested_names' in new_labs, 'cls': sorted(labs) + extra}
 
 
 # ------------------------------------------------------------------------------------------- affine
 @st.composite
 def affine_case(draw, tier):
     nmax = 40 if tier == 'quick' else 300
-    obs = draw(gen.obs_spec(nmax=nmax, ens_max=2, data_kinds=('white', 'ar1', 'list'), with_cov=False,
-                            sigma=gen.fl(0.05, 2.0), mean=gen.fl(-3, 3)))
+    obs = draw(obs_nested(gen.obs_spec(nmax=nmax, ens_max=2, data_kinds=('white', 'ar1', 'list'), with_cov=False,
+                                       sigma=gen.fl(0.05, 2.0), mean=gen.fl(-3, 3))))
     mode = draw(st.sampled_from(['shift', 'scale']))
     c = draw(gen.fl(-50, 50)) if mode == 'shift' else draw(st.one_of(gen.fl(0.01, 100), gen.fl(-100, -0.01), st.sampled_from([-1.0, 2.0, 0.5]),
                                                                   st.builds(lambda sg, e: sg * 10.0 ** e, st.sampled_from([1.0, -1.0]), gen.fl(-18, 18)),
@@ -241,6 +293,15 @@ def affine_oracle(spec):
         x = chain_samples(ch)
         if float(np.max(np.abs(x - np.mean(x)))) <= 1e-12 * float(np.max(np.abs(x))):
             raise Skip('constant data: variance is rounding noise, nothing is defined')
+    if spec['mode'] == 'scale':
+        # the analysis forms fourth powers of the fluctuations ((dvalue * ddvalue)^2): data whose spread, before or after the
+        # multiplication, lies outside 1e-70 .. 1e70 leave the range in which these are representable (seed-7 false alarm:
+        # spread 1e-84, ddvalue underflows to 0 on one side only) - floating-point range, not what the property is about
+        for ch in spec['obs']['chains']:
+            x = chain_samples(ch)
+            sp_ = float(np.max(np.abs(x - np.mean(x))))
+            if sp_ * min(1.0, abs(spec['c'])) < 1e-70 or sp_ * max(1.0, abs(spec['c'])) > 1e70:
+                raise Skip('spread of the data outside 1e-70 .. 1e70: fourth powers under- or overflow')
     groups = {}
     for ch in spec['obs']['chains']:
         groups.setdefault(ch['name'].split('|')[0], []).append(ch)
@@ -293,6 +354,113 @@ def obs_bytes(o):
             tuple((k, v.grad.tobytes()) for k, v in sorted(o.covobs.items())), tuple(o.names))
 
 
+STATE_ATTRS = ('e_dvalue', 'e_ddvalue', 'e_tauint', 'e_dtauint', 'e_windowsize', 'e_rho', 'e_drho', 'e_n_tauint', 'e_n_dtauint',
+               'S', 'tau_exp', 'N_sigma')
+
+
+def analysis_state(o):
+    """Everything an observable reports about an error analysis: dvalue, ddvalue and, for every attribute gamma_method
+    stores, whether it exists and what it contains (exact, as text)."""
+    state = {'dvalue': repr(float(o.dvalue)), 'ddvalue': repr(float(o.ddvalue))}
+    for a in STATE_ATTRS:
+        if hasattr(o, a):
+            v = getattr(o, a)
+            state[a] = repr(sorted((str(k), np.asarray(x, dtype=float).tolist()) for k, x in v.items())) if isinstance(v, dict) else repr(v)
+    return state
+
+
+def same_state(res, ref, what):
+    """`res` (derived from analysed objects) must carry the analysis state of `ref` (the same derivation from never
+    analysed copies)."""
+    s1, s2 = analysis_state(res), analysis_state(ref)
+    if s1 == s2:
+        return
+    diff = sorted(k for k in set(s1) | set(s2) if s1.get(k) != s2.get(k))
+    k = 'dvalue' if 'dvalue' in diff else diff[0]
+    raise Violation('%s: the result carries another analysis state when the operands have been analysed before than when they '
+                    'have not: differing %s; %s = %s (operands analysed before) vs %s (never analysed)'
+                    % (what, diff, k, str(s1.get(k, 'not set'))[:80], str(s2.get(k, 'not set'))[:80]))
+
+
+def ensembles_of(o):
+    """Ensembles by the naming rule (text before the first '|'), not by what the library reports."""
+    return sorted(set(n.split('|')[0] for n in o.names))
+
+
+# numbers as operands: plain data (c, ctype) -> the Python / numpy scalar
+CTYPES = ['int', 'float', 'float', 'np.float64', 'np.int64', 'np.float32', 'bool']
+
+
+def number(c, ctype):
+    if ctype == 'int':
+        return int(round(c))
+    if ctype == 'bool':
+        return bool(round(c) % 2)
+    if ctype == 'np.int64':
+        return np.int64(int(round(c)))
+    if ctype == 'np.float64':
+        return np.float64(c)
+    if ctype == 'np.float32':
+        return np.float32(c)
+    return float(c)
+
+
+def numbers():
+    return st.one_of(gen.fl(-5, 5), st.sampled_from([0.0, 1.0, -1.0, 2.0, 0.5, 3.0, -2.0, 1.5]))
+
+
+# operator catalogue: name -> (fn(o, c, b), admissible(o, c)); o, b observables, c a number
+def _always(o, c):
+    return True
+
+
+NUM_OPS = {
+    'o+c': (lambda o, c, b: o + c, _always),
+    'c+o': (lambda o, c, b: c + o, _always),
+    'o-c': (lambda o, c, b: o - c, _always),
+    'c-o': (lambda o, c, b: c - o, _always),
+    'o*c': (lambda o, c, b: o * c, _always),
+    'c*o': (lambda o, c, b: c * o, _always),
+    'o/c': (lambda o, c, b: o / c, lambda o, c: c != 0),
+    'c/o': (lambda o, c, b: c / o, lambda o, c: abs(o.value) > 1e-3),
+    'o**2': (lambda o, c, b: o ** 2, _always),
+    '2**o': (lambda o, c, b: 2 ** o, lambda o, c: abs(o.value) < 50),
+}
+UNARY_OPS = {
+    '-o': (lambda o, c, b: -o, _always),
+    'abs': (lambda o, c, b: abs(o), _always),
+    'sin': (lambda o, c, b: np.sin(o), _always),
+    'cos': (lambda o, c, b: np.cos(o), _always),
+    'tanh': (lambda o, c, b: np.tanh(o), _always),
+    'arctan': (lambda o, c, b: np.arctan(o), _always),
+    'exp': (lambda o, c, b: np.exp(o), lambda o, c: abs(o.value) < 50),
+    'sqrt(o*o+1)': (lambda o, c, b: np.sqrt(o * o + 1), _always),
+}
+
+
+def _derived(o, c, b):
+    import pyerrors as pe
+    return pe.derived_observable(lambda x, **kwargs: x[0] * x[1] + c * x[0], [o, b])
+
+
+def _derived_num(o, c, b):
+    import pyerrors as pe
+    return pe.derived_observable(lambda x, **kwargs: x[0] * x[0] + c, [o], num_grad=True)
+
+
+BINARY_OPS = {
+    'o+b': (lambda o, c, b: o + b, _always),
+    'b-o': (lambda o, c, b: b - o, _always),
+    'o*b': (lambda o, c, b: o * b, _always),
+    'o/(b*b+1)': (lambda o, c, b: o / (b * b + 1.0), _always),
+    'o+o': (lambda o, c, b: o + o, _always),
+    'derived_observable(o,b)': (_derived, _always),
+    'derived_observable(o,num_grad)': (_derived_num, _always),
+}
+ALL_OPS = dict(NUM_OPS, **UNARY_OPS)
+ALL_OPS.update(BINARY_OPS)
+
+
 def make_history_machine(tier):
     nmax = 30 if tier == 'quick' else 120
 
@@ -309,6 +477,9 @@ def make_history_machine(tier):
         def rebuild(self, recipe):
             if recipe[0] == 'base':
                 return build_obs(recipe[1])
+            if recipe[0] == 'num':
+                _, op, i, c, ctype = recipe
+                return NUM_OPS[op][0](self.rebuild(self.pool[i]['recipe']), number(c, ctype), None)
             _, op, i, j = recipe
             a, b = self.rebuild(self.pool[i]['recipe']), self.rebuild(self.pool[j]['recipe'])
             return self.apply(op, a, b)
@@ -329,7 +500,7 @@ def make_history_machine(tier):
             eff = {}
             for p in PARAMS:
                 eff[p] = {}
-                for e in o.e_names:
+                for e in ensembles_of(o):
                     if p in kw:
                         eff[p][e] = kw[p]
                     elif e in self.mdict[p]:
@@ -346,7 +517,7 @@ def make_history_machine(tier):
                 require(getattr(pe.Obs, p + '_global') == self.mglob[p], 'global default %s_global was modified by the library' % p)
 
         # --- rules
-        @vm.rule(spec=gen.obs_spec(ens_max=2, rep_max=2, nmin=8, nmax=nmax, data_kinds=('white', 'ar1', 'count'), sigma=gen.fl(0.05, 1.0)))
+        @vm.rule(spec=obs_nested(gen.obs_spec(ens_max=2, rep_max=2, nmin=8, nmax=nmax, data_kinds=('white', 'ar1', 'count'), sigma=gen.fl(0.05, 1.0))))
         @vm.traced
         def add_base(self, spec):
             if len(self.pool) >= 5:
@@ -355,6 +526,8 @@ def make_history_machine(tier):
             for cv in spec['cov']:      # covariance inputs of different base observables are different inputs
                 cv['name'] = '%s_%d' % (cv['name'], len(self.pool))
             self.pool.append({'recipe': ('base', spec), 'obj': build_obs(spec)})
+            if 'nested_names' in layout_labels(spec):
+                self.labels.append('base:nested_names')
 
         @vm.precondition(lambda self: len(self.pool) > 0)
         @vm.rule(i=st.integers(0, 9), kw=analyse_opts())
@@ -384,7 +557,7 @@ def make_history_machine(tier):
             sanity(o, 'history')
             compare_analysis(o, per, dv, ddv, 'analysis #%d of pool[%d] with %r, effective %r' % (len(self.analyses.get(i % len(self.pool), [])) + 1, i % len(self.pool), kw, eff))
             for p in PARAMS:
-                require({e: getattr(o, p)[e] for e in o.e_names if e in getattr(o, p)} == {e: eff[p][e] for e in o.e_names if e in getattr(o, p)},
+                require({e: getattr(o, p)[e] for e in eff[p] if e in getattr(o, p)} == {e: eff[p][e] for e in eff[p] if e in getattr(o, p)},
                         'recorded %s differs from the effective parameters' % p, getattr(o, p), eff[p])
             snap = snapshot_analysis(o)
             run_gm(o, kw)
@@ -435,10 +608,38 @@ def make_history_machine(tier):
             recipe = ('op', op, i, j)
             fresh = self.rebuild(recipe)
             require(obs_bytes(res) == obs_bytes(fresh), 'arithmetic on analysed objects differs from arithmetic on never-analysed copies (op %s)' % op)
-            require(not hasattr(res, 'e_dvalue') or res.e_dvalue == {} or True, '')
+            same_state(res, fresh, 'pool[%d] %s pool[%d]' % (i, op, j))
             self.pool.append({'recipe': recipe, 'obj': res})
             analysed = hasattr(a, 'e_dvalue') or hasattr(b, 'e_dvalue')
             self.labels.append('arith:' + ('analysed' if analysed else 'fresh'))
+
+        @vm.precondition(lambda self: len(self.pool) > 0)
+        @vm.rule(i=st.integers(0, 9), op=st.sampled_from(sorted(NUM_OPS)), c=numbers(), ctype=st.sampled_from(CTYPES))
+        @vm.traced
+        def arith_num(self, i, op, c, ctype):
+            """pool member (analysed or not) combined with a plain number on either side"""
+            i = i % len(self.pool)
+            a = self.pool[i]['obj']
+            y = number(c, ctype)
+            fn, admissible = NUM_OPS[op]
+            if not admissible(a, y):
+                return
+            before = obs_bytes(a)
+            state = analysis_state(a)
+            res = fn(a, y, None)
+            require(obs_bytes(a) == before and analysis_state(a) == state, 'arithmetic with a number altered the observable it was applied to (%s)' % op)
+            recipe = ('num', op, i, c, ctype)
+            fresh = self.rebuild(recipe)
+            what = '%s with o = pool[%d], c = %r (%s)' % (op, i, y, ctype)
+            require(obs_bytes(res) == obs_bytes(fresh), 'arithmetic on analysed objects differs from arithmetic on never-analysed copies (%s)' % what)
+            same_state(res, fresh, what)
+            if len(self.pool) < 8:
+                self.pool.append({'recipe': recipe, 'obj': res})
+            analysed = hasattr(a, 'e_dvalue')
+            self.labels.append('arith_num:' + ('analysed' if analysed else 'fresh'))
+            if analysed:
+                self.labels.append('arith_num:analysed:' + op)
+                self.labels.append('arith_num:analysed:' + ctype)
 
         def info(self):
             return {'nt': self.nt, 'cls': sorted(set(self.labels))}
